@@ -547,6 +547,46 @@ def static_reference_cases():
     return out
 
 
+_LEAF_DECLS = [
+    # (tag, text placed before the module, declaration replacing `0 [+1]  UInt  x`)
+    ("external-integer", "external Ext:\n  [is_integer: true]\n  [addressable_unit_size: 8]\n", "  0 [+1]  Ext  x\n"),
+    ("external-integer-twice", "external Ext:\n  [is_integer: true]\n  [is_integer: true]\n  [addressable_unit_size: 8]\n", "  0 [+1]  Ext  x\n"),
+    ("external-integer-true-false", "external Ext:\n  [is_integer: true]\n  [is_integer: false]\n  [addressable_unit_size: 8]\n", "  0 [+1]  Ext  x\n"),
+    ("external-integer-after-foreign", "[expected_back_ends: \"cpp, xyz\"]\nexternal Ext:\n  [(xyz) is_integer: true]\n  [is_integer: true]\n  [addressable_unit_size: 8]\n", "  0 [+1]  Ext  x\n"),
+    ("external-not-integer", "external Ext:\n  [is_integer: false]\n  [addressable_unit_size: 8]\n", "  0 [+1]  Ext  x\n"),
+    ("external-plain", "external Ext:\n  [addressable_unit_size: 8]\n", "  0 [+1]  Ext  x\n"),
+    ("external-unit-twice", "external Ext:\n  [is_integer: true]\n  [addressable_unit_size: 8]\n  [addressable_unit_size: 1]\n", "  0 [+1]  Ext  x\n"),
+    ("external-requirements", "external Ext:\n  [is_integer: true]\n  [addressable_unit_size: 8]\n  [static_requirements: $size_in_bits == 8]\n", "  0 [+1]  Ext  x\n"),
+    ("dynamic-width", "[$default byte_order: \"LittleEndian\"]\n", "  0 [+1]  UInt  w\n  1 [+w]  UInt  x\n"),
+    ("dynamic-width-chain", "[$default byte_order: \"LittleEndian\"]\n", "  0 [+1]  UInt  v\n  1 [+v]  UInt  w\n  2 [+w]  UInt  x\n"),
+    ("dynamic-width-int", "[$default byte_order: \"LittleEndian\"]\n", "  0 [+1]  UInt  w\n  1 [+w]  Int  x\n"),
+    ("dynamic-width-bcd", "[$default byte_order: \"LittleEndian\"]\n", "  0 [+1]  UInt  w\n  1 [+w]  Bcd  x\n"),
+    ("zero-width", "", "  0 [+0]  UInt  x\n"),
+    ("nine-bytes", "[$default byte_order: \"LittleEndian\"]\n", "  0 [+9]  UInt  x\n"),
+    ("flag", "", "  0 [+1]  Flag  x\n"),
+    ("float", "", "  0 [+4]  Float  x\n"),
+    ("array", "", "  0 [+2]  UInt:8[2]  x\n"),
+    ("struct", "struct Sub:\n  0 [+1]  UInt  q\n", "  0 [+1]  Sub  x\n"),
+    ("enum", "enum Kk:\n  KA = 1\n", "  0 [+1]  Kk  x\n"),
+]
+_LEAF_FORMS = ["x", "x + 1", "x == 1", "x == x", "x ? 1 : 2", "$max(x, 2)"]
+
+
+def leaf_kind_cases():
+    """Seed-independent: a field of every kind of type (user-defined externals with every spelling of their
+    attributes, integers of unknown / impossible width, Flag, Float, arrays, structures, enums) used as an operand
+    at every expression position."""
+    out = []
+    needle = "  0 [+1]  UInt  x\n"
+    for tag, pre, decl in _LEAF_DECLS:
+        for form in _LEAF_FORMS:
+            for pos, tmpl in _KW_POSITIONS:
+                if needle not in tmpl:
+                    continue
+                out.append(("leaf-kind:%s:%s" % (tag, pos), pre + tmpl.replace(needle, decl).replace("{E}", form)))
+    return out
+
+
 _ATTR_NAMES = ["byte_order", "requires", "fixed_size_in_bits", "maximum_bits", "is_signed", "is_integer", "addressable_unit_size",
                "static_requirements", "text_output", "enum_case", "namespace", "expected_back_ends", "can_hold_any_value", "nope"]
 _ATTR_VALUES = ['"text"', "4", "true", "Ee.AA", '"kCamelCase"', '""', "x"]
